@@ -376,9 +376,12 @@ def run(F, R, tier):
             if info.get("kind") != "field" or id(info) in seen:
                 continue
             seen.add(id(info))
-            ifs = [x for x in H.walk(info["body"]) if x.get("k") == "if" and "setval" in H.render(x["c"])]
-            ok = len(ifs) >= 1 and "e" in ifs[0] and not any(
-                c.get("k") == "mcall" and c["m"].startswith("set_") for c in H.walk(ifs[0]["e"]))
+            # the arm as it runs for a read (the value-to-store parameter is None): it calls a getter and no setter
+            sv = [pr.get("id") for i_, pr in enumerate(f["hir"]["params"]) if i_ + 1 < len(f["mir"]["locals"])
+                  and re.search(r"Option<std::rc::Rc<object::Object>>", f["mir"]["locals"][i_ + 1].get("ty") or "")]
+            rd = H.specialise(info["body"], sv[0], "None") if len(sv) == 1 else None
+            ok = rd is not None and any(c.get("k") == "mcall" for c in H.walk(rd)) and not any(
+                c.get("k") == "mcall" and c["m"].startswith("set_") for c in H.walk(rd))
             R.ob("getters-are-pure", "%s.%s read branch" % (H.last(spec["exec"]), v), ok, "", F.loc(f, info.get("line")), nontrivial=False)
 
     # (g) routing: every output path serialises the packet through From<&PcapPacket>
